@@ -97,4 +97,47 @@ Section ClientRefine.
       rewrite (pending_is_skipn (w_d w) f Hb Hf). rewrite F2, F3. cbn [d_cp d2 set_checkpoint c' cseq sseq d_buf d_oid].
       rewrite skipn_skipn'. f_equal. f_equal. lia.
   Qed.
+  (* ---------- a local call is the abstract system's local step ---------- *)
+  Variable k_validate : St -> call -> bool.
+  Variable k_local : St -> call -> opid -> lres St ret.
+  Hypothesis k_local_id : forall s c i s' o r, k_local s c i = LOk s' o r -> op_id o = i.
+
+  (* every identifier the datatype has issued sits in its buffer: sequence numbers 1, 2, ... up to the current one *)
+  Definition IdInv (d : dty) : Prop :=
+    map oseq' (d_buf d) = nseq 1 (length (d_buf d)) /\ o_seq (d_oid d) = N.of_nat (length (d_buf d)) /\
+    cseq (d_cp d) <= N.of_nat (length (d_buf d)).
+
+  Lemma IdInv_BufInv d : IdInv d -> BufInv d.
+  Proof. intros [H1 [H2 H3]]. exists 1. split; [exact H1|]. lia. Qed.
+
+  Lemma pending_length d : IdInv d -> N.of_nat (length (pending St call J d)) = N.of_nat (length (d_buf d)) - cseq (d_cp d).
+  Proof. intros [H1 [H2 H3]]. rewrite (pending_is_skipn d 1 H1) by lia. rewrite skipn_length. lia. Qed.
+
+  (* a call that succeeds (sequence numbers far from wrapping): the emitted operation carries the client's identifier
+     and exactly the next sequence number the abstract system expects, and the pending operations grow by it *)
+  Theorem local_call_refines d c d' r :
+    IdInv d -> N.of_nat (length (d_buf d)) + 1 < two64 ->
+    local_call St call ret J k_validate k_local d c = (d', Done r) ->
+    exists o, d_buf d' = d_buf d ++ [o] /\ d_cp d' = d_cp d /\
+      o_cuid (op_id o) = o_cuid (d_oid d) /\
+      oseq' o = cseq (d_cp d) + N.of_nat (length (pending St call J d)) + 1 /\
+      pending St call J d' = pending St call J d ++ [o] /\ IdInv d'.
+  Proof.
+    intros Hi H4. pose proof Hi as [H1 [H2 H3]]. unfold Datatype.local_call, Datatype.local_step.
+    destruct (k_validate (d_snap d) c); [|intros [= _ E]; discriminate].
+    destruct (k_local (d_snap d) c (opid_next (d_oid d))) as [s' o r0| |] eqn:El; intros [= <- E]; try discriminate.
+    pose proof (k_local_id _ _ _ _ _ _ El) as Hid. exists o. cbn [d_buf d_cp d_oid].
+    assert (Hseq : oseq' o = N.of_nat (length (d_buf d)) + 1).
+    { unfold oseq'. rewrite Hid. unfold opid_next. cbn [o_seq]. rewrite H2. apply N.mod_small. exact H4. }
+    split; [reflexivity|]. split; [reflexivity|]. split; [rewrite Hid; reflexivity|].
+    split; [rewrite Hseq, (pending_length d Hi); lia|].
+    assert (Hb' : map oseq' (d_buf d ++ [o]) = nseq 1 (length (d_buf d ++ [o]))).
+    { rewrite map_app, app_length, nseq_app, H1. cbn [map length nseq]. rewrite Hseq. do 2 f_equal. lia. }
+    split.
+    - rewrite (pending_is_skipn _ 1) by (cbn [d_buf d_cp]; first [exact Hb'|lia]).
+      rewrite (pending_is_skipn d 1 H1) by lia. cbn [d_buf d_cp]. rewrite skipn_app.
+      replace (N.to_nat (cseq (d_cp d) + 1 - 1) - length (d_buf d))%nat with 0%nat by lia. reflexivity.
+    - split; [exact Hb'|]. cbn [d_buf d_oid d_cp]. rewrite app_length. cbn [length].
+      split; [unfold opid_next; cbn [o_seq]; rewrite H2, N.mod_small by exact H4; lia|lia].
+  Qed.
 End ClientRefine.
